@@ -51,6 +51,12 @@ EXTRA = [
     '- a\n  - b\n    - c\n      - d\n\n        e\n  f\n',
     '> a\n> > b\n> > > c\nlazy\n> d\n',
     '```py title\ncode\n```\n~~~\n~~~\n    indented\n\n    more\n',
+    # the end of the document: raw blocks that keep trailing whitespace, tables without body rows, unclosed constructs
+    '<div>\nraw html\n</div>  \n',
+    'text\n\n<!-- a comment -->\t\n',
+    'intro\n\n<pre>\nkept verbatim\n   \n',
+    '- a\n\n\n',
+    '```\ncode  \n\n  ',
 ]
 
 
@@ -96,7 +102,29 @@ def random_text(rng, maxlen=60, alphabet=None):
     return ''.join(rng.choice(alphabet) for _ in range(rng.randint(0, maxlen)))
 
 
-def texts(rng, n, kinds=('corpus', 'mutant', 'splice', 'random'), no_tabs=False):
+ENDINGS = ['  \n', '\t\n', '', '\n\n', '\n   \n', ' ', '\n\n\n', '\\\n']
+
+
+HEADS = ['', 'foo\n', '> foo\n', '- foo\n', '1. foo\n', '# h\n', 'foo\n\n', '> - foo\n']
+MIDDLES = ['', '| a | b |\n', 'bar\n', '> baz\n', '  qux\n']
+LAST_LINES = ['|---|---|', '| - | - |', '---', '===', '```', '~~~', '<div>', '<!--', '<pre>', '-', '1.', '>', '    x', '[a]: /u', '[a]:', '[a]: /u "t',
+              '| a |', '***', '#', '\\', '  ', '+ +', '2)', '<?x', '> ```', '- ```', ':-:|', '$$']
+
+
+def tail_text(rng):
+    """A short document whose LAST line is structurally significant: what it means may depend on what follows (nothing, a blank
+    line, more text) - tables without body rows, underlines, openers of blocks that run to the end of the document, ..."""
+    return rng.choice(HEADS) + rng.choice(MIDDLES) + rng.choice(LAST_LINES) + rng.choice(['\n', '\n', ''])
+
+
+def ending(rng, text):
+    """The same document with another end: trailing whitespace on the last line, no final newline, blank lines, ..."""
+    if rng.random() < 0.4:
+        return tail_text(rng)
+    return text.rstrip('\n') + rng.choice(ENDINGS)
+
+
+def texts(rng, n, kinds=('corpus', 'mutant', 'splice', 'random', 'ending'), no_tabs=False):
     """A reproducible stream of n texts mixing the kinds given."""
     cp = [e['markdown'] for e in corpus()] + EXTRA * 3
     out = list(EXTRA) if n >= 200 else []
@@ -110,6 +138,8 @@ def texts(rng, n, kinds=('corpus', 'mutant', 'splice', 'random'), no_tabs=False)
             t = mutate(rng, rng.choice(cp))
         elif kind == 'splice':
             t = splice(rng, rng.choice(cp), rng.choice(cp))
+        elif kind == 'ending':
+            t = ending(rng, rng.choice(cp))
         else:
             t = random_text(rng)
         if no_tabs and '\t' in t:
